@@ -32,6 +32,16 @@ def build_demo(wt, demo, out):
     m = re.search(r"VERIF-DEMO-FLAGS:(.*)", src)
     if m:
         extra = m.group(1).strip()
+    else:
+        # the author's recorded compile command may carry configuration flags (-mssse3, -DADA_DEVELOPMENT_CHECKS=1, sanitizers)
+        try:
+            meta = json.load(open(os.path.join(os.path.dirname(demo), "meta.json")))
+            toks = str(meta.get("demo_compile", "")).split()
+            std = {"-DADA_INCLUDE_URL_PATTERN=1", "-DADA_USE_UNSAFE_STD_REGEX_PROVIDER=1"}
+            keep = [t for t in toks if (t.startswith(("-m", "-fsanitize", "-D", "-fno-sanitize")) and t not in std)]
+            extra = " ".join(dict.fromkeys(keep))
+        except Exception:
+            pass
     cmd = ("g++ -std=c++20 -O2 -I%s/include -I%s/src -DADA_INCLUDE_URL_PATTERN=1 -DADA_USE_UNSAFE_STD_REGEX_PROVIDER=1 %s "
            "%s %s/src/ada.cpp -lpthread -o %s" % (wt, wt, extra, demo, wt, out))
     return sh(cmd)
